@@ -1,4 +1,5 @@
 import GoSQLXModel.Model.Fs
+import GoSQLXModel.Proofs.FsMulti
 import GoSQLXModel.Gen.FsCalls
 /-!
 # C19 — CLI verdicts match the library; files are never left half-written
@@ -17,6 +18,9 @@ import GoSQLXModel.Gen.FsCalls
   the theorem speaks about (Stat, CreateTemp, Write, Sync, Close, Chmod, Rename).
 * verdict logic: `validate_exit_iff`, `check_exit_iff` — exit status 0 iff every input is accepted (and, for
   `format --check`, unchanged by formatting).
+`all_files_old_or_new`, `other_paths_untouched` (Proofs/FsMulti.lean) lift the single-file theorem to a run over any
+number of files with a crash anywhere in the whole run: every named file holds its complete old or complete new
+content, provided the targets are distinct paths and no temporary name is a target; paths that are neither are untouched.
 What the model cannot exhibit: the kernel, the real file system, signals — the harness injects a write failure at
 byte offsets with RLIMIT_FSIZE and compares exit statuses, reports and file contents with the library.
 -/
@@ -42,6 +46,24 @@ theorem inplace_write_safe (d : Disk) (target tmp : String) (new : Bytes) (hne :
 
 theorem inplace_write_completes (d : Disk) (target tmp : String) (new : Bytes) (hne : tmp ≠ target) :
     run d (atomicReplace target tmp new) target = some new := (atomic_replace_done d target tmp new hne).1
+
+/-- **C19 (crash safety) for a whole command line**: any number of files, crash at any point of the run -/
+theorem all_files_old_or_new (js : List Job) (d : Disk) (hnd : (js.map (·.target)).Nodup)
+    (htmp : ∀ j ∈ js, ∀ j' ∈ js, j.tmp ≠ j'.target) :
+    ∀ s ∈ crashStates d (jobsOps js), ∀ j ∈ js, s j.target = d j.target ∨ s j.target = some j.new :=
+  multi_replace_safe js d hnd htmp
+
+theorem other_paths_untouched (js : List Job) (d : Disk) (q : String) (h : ∀ j ∈ js, q ≠ j.target ∧ q ≠ j.tmp) :
+    ∀ s ∈ crashStates d (jobsOps js), s q = d q := multi_replace_frame js d q h
+
+/-- non-vacuity: two files, 18 crash states; in each, both files are whole -/
+def twoJobs : List Job := [⟨"a.sql", "a.tmp", [7, 8, 9]⟩, ⟨"b.sql", "b.tmp", [5, 6]⟩]
+def disk0 : Disk := fun p => if p = "a.sql" then some [1, 2] else if p = "b.sql" then some [3] else none
+example : (crashStates disk0 (jobsOps twoJobs)).length = 18 ∧
+    ((crashStates disk0 (jobsOps twoJobs)).all fun s =>
+      (s "a.sql" == some [1, 2] || s "a.sql" == some [7, 8, 9]) && (s "b.sql" == some [3] || s "b.sql" == some [5, 6])) = true ∧
+    ((crashStates disk0 (jobsOps twoJobs)).any fun s => s "a.sql" == some [7, 8, 9] && s "b.sql" == some [3]) = true := by
+  decide
 
 /-- the protocol the code used before the repair is unsafe (kept as the counterexample) -/
 theorem truncate_write_counterexample (d : Disk) (target : String) (old new : Bytes) (hold : d target = some old)
